@@ -243,7 +243,7 @@ def onReady (s : GState) : GState × String :=
     let i := tbl.syms.getD t.sym default
     i.name == t.tok.name && t.sym < tbl.tokenCount
   ({ s with tbl := tbl0, closed := closed, g := g0, gt := g, oracle := oracle, opOK := opOK, dynO := dynO, exempt := exempt, badStates := badStates },
-   s!"G {s.gid} kind={s.kind} closed={closed} rootsafe={rootSafe tbl} tablesafe={safe} rawtie={rawtie} rawrows={rd.rows.length} cover={cover} complete={complete} prec={hasPrecs} multi={((List.range tbl.stateCount).map fun q => ((tbl.acts.getD q []).filter fun e => e.2.length > 1).length).foldl (· + ·) 0} exempt={exempt} items={nitems} rel={rel} relscope={relScope g tbl} prods={nprods} badprod={badProd.replace " " "_"} states={tbl.stateCount} symbols={tbl.symbolCount} rules={g.rules.length} " ++
+   s!"G {s.gid} kind={s.kind} closed={closed} rootsafe={rootSafe tbl} tablesafe={safe} aliasrows={match aliasRowOverrun tbl with | none => "ok" | some (q, y, n) => s!"FAIL:state{q}:symbol{y}:children={n}>stride={tbl.maxAliasSeqLen}"} rawtie={rawtie} rawrows={rd.rows.length} cover={cover} complete={complete} prec={hasPrecs} multi={((List.range tbl.stateCount).map fun q => ((tbl.acts.getD q []).filter fun e => e.2.length > 1).length).foldl (· + ·) 0} exempt={exempt} items={nitems} rel={rel} relscope={relScope g tbl} prods={nprods} badprod={badProd.replace " " "_"} states={tbl.stateCount} symbols={tbl.symbolCount} rules={g.rules.length} " ++
    s!"repconflict={suspiciousRepetitionCells tbl} simple={simple} oracle={oracle.isSome} dyn={dynO.isSome} L={s.exh} lang={langSize} fix={fix} opgrammar={opOK} resolvable={match s.optable with | some t => toString t.resolvable | none => "na"} terms={termsOK} nterm={s.terms.size}")
 
 def drvName : Outcome → String
